@@ -89,6 +89,52 @@ func (r *Run) clockAdvance(fr *frame, d value) {
 	r.fireTimers(fr)
 }
 
+// clockAdvanceStaged advances a concrete clock the way a synctest bubble does:
+// time moves to the next timer deadline only when every other thread is
+// blocked, so two timers that fall inside one vfAdvance are handled one after
+// the other, in deadline order, never as if they had expired together.
+func (r *Run) clockAdvanceStaged(fr *frame, d value) {
+	c := &r.clock
+	dd, okD := d.(int64)
+	s0, okS := c.sec.(int64)
+	if !okD || !okS || dd <= 0 || len(c.timers) == 0 {
+		r.clockAdvance(fr, d)
+		return
+	}
+	tNs := c.nsec + dd%nsPerSec
+	tS := s0 + dd/nsPerSec
+	if tNs >= nsPerSec {
+		tNs -= nsPerSec
+		tS++
+	}
+	for guard := 0; guard < 10000; guard++ {
+		cs, cn := c.sec.(int64), c.nsec
+		found := false
+		var bs, bn int64
+		for _, t := range c.timers {
+			if !t.active {
+				continue
+			}
+			after := t.whenSec > cs || (t.whenSec == cs && t.whenNsec > cn)
+			before := t.whenSec < tS || (t.whenSec == tS && t.whenNsec < tNs)
+			if after && before && (!found || t.whenSec < bs || (t.whenSec == bs && t.whenNsec < bn)) {
+				found, bs, bn = true, t.whenSec, t.whenNsec
+			}
+		}
+		if !found {
+			break
+		}
+		c.sec, c.nsec = bs, bn
+		r.fireTimers(fr)
+		r.sched.quiesceWait(r.curThread(fr))
+		if _, ok := c.sec.(int64); !ok {
+			r.inconclusive("clock became symbolic during a staged advance")
+		}
+	}
+	c.sec, c.nsec = tS, tNs
+	r.fireTimers(fr)
+}
+
 func (r *Run) nowTime() value {
 	c := &r.clock
 	var ext value
